@@ -263,6 +263,32 @@ struct halve_cc {           // a user colour converter: default conversion, then
         gil::static_for_each(d, [](auto& c) { c = (typename std::remove_reference<decltype(c)>::type)(c / 2); });
     }
 };
+// Caller-supplied objects with run-time state: the object handed to an overload must be the one that is
+// used.  A default-constructed one adds nothing and counts nothing.
+static long* g_sink = nullptr;          // where the objects constructed for the next call count their calls
+static int g_offset = 0;                // run-time state given to the next converter / sampler
+struct offset_cc {          // default conversion, then every channel + offset (wraps); counts its calls
+    int offset; long* calls;
+    offset_cc() : offset(0), calls(nullptr) {}
+    offset_cc(int o, long* c) : offset(o), calls(c) {}
+    template <class S, class D> void operator()(S const& s, D& d) const {
+        gil::default_color_converter()(s, d);
+        int o = offset;
+        gil::static_for_each(d, [o](auto& c) { c = (typename std::remove_reference<decltype(c)>::type)(c + o); });
+        if (calls) ++*calls;
+    }
+};
+struct shift_sampler {      // nearest neighbour at p + (shift, 0); counts its calls
+    int shift; long* calls;
+    shift_sampler() : shift(0), calls(nullptr) {}
+    shift_sampler(int s, long* c) : shift(s), calls(c) {}
+};
+template <class SrcView, class F, class DstP>
+bool sample(shift_sampler const& s, SrcView const& src, gil::point<F> const& p, DstP& result) {
+    if (s.calls) ++*s.calls;
+    return gil::sample(gil::nearest_neighbor_sampler(), src, gil::point<F>(p.x + s.shift, p.y), result);
+}
+
 template <int I> void converted_views() {
     const char* an = ALT<I>::name();
     typedef typename ALT<I>::view_t view_t;
@@ -279,8 +305,10 @@ template <int I> void converted_views() {
         same_values("color_converted_view<rgb8>", an, I, gil::color_converted_view<gil::rgb8_pixel_t>(av), gil::color_converted_view<gil::rgb8_pixel_t>(cv), sh);
         same_values("color_converted_view<rgba8>", an, I, gil::color_converted_view<gil::rgba8_pixel_t>(av), gil::color_converted_view<gil::rgba8_pixel_t>(cv), sh);
         same_values("color_converted_view<gray16,cc>", an, I, gil::color_converted_view<gil::gray16_pixel_t>(av, halve_cc()), gil::color_converted_view<gil::gray16_pixel_t>(cv, halve_cc()), sh);
+        int off = 1 + (int)r.below(200);
+        same_values("color_converted_view<rgb8,stateful-cc>", an, I, gil::color_converted_view<gil::rgb8_pixel_t>(av, offset_cc(off, nullptr)), gil::color_converted_view<gil::rgb8_pixel_t>(cv, offset_cc(off, nullptr)), sh);
     }
-    vh::evals(g_evals - e0); vh::distinct(NSHAPES * NSHAPES * 4);
+    vh::evals(g_evals - e0); vh::distinct(NSHAPES * NSHAPES * 5);
 }
 
 // Parts 8 and 9 are build probes at present: transposed_view(any_image_view) and
@@ -383,10 +411,10 @@ template <int I, int K> void fill_case() {
     vh::obs(compat ? "fill.compatible" : "fill.bad_cast");
 }
 
-struct touch_fn {          // counts the pixels it is handed and rewrites their first channel
-    long n; long* total;
-    template <class T, class L> void operator()(gil::pixel<T, L>& p) { ++n; ++*total; gil::at_c<0>(p) = (T)(gil::at_c<0>(p) * 3 + n); }
-    template <class R, class CS> void operator()(gil::planar_pixel_reference<R, CS> p) { ++n; ++*total; gil::at_c<0>(p) = (uint8_t)(gil::at_c<0>(p) * 3 + n); }
+struct touch_fn {          // counts the pixels it is handed and rewrites their first channel using its run-time state
+    long n; long* total; int mul;
+    template <class T, class L> void operator()(gil::pixel<T, L>& p) { ++n; ++*total; gil::at_c<0>(p) = (T)(gil::at_c<0>(p) * mul + n); }
+    template <class R, class CS> void operator()(gil::planar_pixel_reference<R, CS> p) { ++n; ++*total; gil::at_c<0>(p) = (uint8_t)(gil::at_c<0>(p) * mul + n); }
 };
 template <int I> void for_each_case() {
     const char* an = ALT<I>::name();
@@ -398,8 +426,9 @@ template <int I> void for_each_case() {
         Arena D = make_arena<I>(w, h, r), D2 = D;
         AV vd(view_of<I>(D));
         long tot_a = 0, tot_c = 0;
-        touch_fn ra = gil::for_each_pixel(vd, touch_fn{0, &tot_a});
-        touch_fn rc = gil::for_each_pixel(view_of<I>(D2), touch_fn{0, &tot_c});
+        long n0 = (long)r.below(100); int mul = 3 + 2 * (int)r.below(6);
+        touch_fn ra = gil::for_each_pixel(vd, touch_fn{n0, &tot_a, mul});
+        touch_fn rc = gil::for_each_pixel(view_of<I>(D2), touch_fn{n0, &tot_c, mul});
         g_evals += 3;
         if (tot_a != (long)w * h) vh::viol(vh::cat("for_each_pixel.count.", an), vh::cat(tot_a, " calls for shape ", shape_str(w, h)));
         if (ra.n != rc.n) vh::viol(vh::cat("for_each_pixel.returned-functor.", an), vh::cat("returned functor counted ", ra.n, ", the concrete call's ", rc.n, ", shape ", shape_str(w, h)));
@@ -411,24 +440,36 @@ template <int I> void for_each_case() {
 // ---- binary algorithms: variant x variant, variant x concrete, concrete x variant ------------------------
 struct op_copy {
     static const char* name() { return "copy_pixels"; }
-    static const bool converts = false;
+    static const bool converts = false, free_shapes = false;
+    static void prepare(vh::rng&) {}
     template <class A, class B> static void call(A const& a, B const& b) { gil::copy_pixels(a, b); }
 };
 struct op_ccp {
     static const char* name() { return "copy_and_convert_pixels"; }
-    static const bool converts = true;
+    static const bool converts = true, free_shapes = false;
+    static void prepare(vh::rng&) {}
     template <class A, class B> static void call(A const& a, B const& b) { gil::copy_and_convert_pixels(a, b); }
 };
-struct op_ccp_cc {
+struct op_ccp_cc {           // user converter with run-time state (offset, call counter)
     static const char* name() { return "copy_and_convert_pixels.cc"; }
-    static const bool converts = true;
-    template <class A, class B> static void call(A const& a, B const& b) { gil::copy_and_convert_pixels(a, b, halve_cc()); }
+    static const bool converts = true, free_shapes = false;
+    static void prepare(vh::rng& r) { g_offset = 1 + (int)r.below(200); }
+    template <class A, class B> static void call(A const& a, B const& b) { gil::copy_and_convert_pixels(a, b, offset_cc(g_offset, g_sink)); }
 };
+// M == 0: identity map, nearest_neighbor_sampler.  M == 1: a seeded affine map and a sampler with run-time state.
+// resample_pixels has no equal-dimensions precondition: destination shapes differ from the source's too.
+static gil::matrix3x2<double> g_mat;
 template <int M> struct op_resample {
-    static const char* name() { return M == 0 ? "resample_pixels.identity" : "resample_pixels.affine"; }
-    static const bool converts = false;
-    static gil::matrix3x2<double> mat() { return M == 0 ? gil::matrix3x2<double>() : gil::matrix3x2<double>(0.8, 0.3, -0.2, 1.1, 0.4, 0.3); }
-    template <class A, class B> static void call(A const& a, B const& b) { gil::resample_pixels<gil::nearest_neighbor_sampler>(a, b, mat()); }
+    static const char* name() { return M == 0 ? "resample_pixels.identity" : "resample_pixels.stateful"; }
+    static const bool converts = false, free_shapes = true;
+    static void prepare(vh::rng& r) {
+        if (M == 0) { g_mat = gil::matrix3x2<double>(); return; }
+        g_mat = gil::matrix3x2<double>(0.5 + r.unit(), r.unit() * 0.6 - 0.3, r.unit() * 0.6 - 0.3, 0.5 + r.unit(), r.unit() * 2 - 1, r.unit() * 2 - 1);
+        g_offset = (int)r.below(3) - 1;
+    }
+    template <class A, class B> static void call(A const& a, B const& b) { call_(a, b, std::integral_constant<int, M>()); }
+    template <class A, class B> static void call_(A const& a, B const& b, std::integral_constant<int, 0>) { gil::resample_pixels<gil::nearest_neighbor_sampler>(a, b, g_mat); }
+    template <class A, class B> static void call_(A const& a, B const& b, std::integral_constant<int, 1>) { gil::resample_pixels(a, b, g_mat, shift_sampler(g_offset, g_sink)); }
 };
 
 // FORM 0: (any, any)   1: (any, concrete)   2: (concrete, any)   3: (any const view, any)
@@ -441,29 +482,43 @@ template <class OP, int I, int J, int FORM> void binary_case() {
     uint64_t e0 = g_evals;
     const bool compat = (int)ALT<I>::cls == (int)ALT<J>::cls;
     const bool ok = compat || OP::converts;
-    for (int wi = 0; wi < NSHAPES; ++wi) for (int hi = 0; hi < NSHAPES; ++hi) for (int rep = 0; rep < REPS; ++rep) {
+    // ds: shape of the destination -- 0 the source's (the precondition of the copying algorithms for compatible pairs);
+    // 1..3 another width and/or height: run for incompatible pairs (must throw whatever the shapes) and for
+    // algorithms without that precondition (resample_pixels)
+    uint64_t nd = 0;
+    for (int wi = 0; wi < NSHAPES; ++wi) for (int hi = 0; hi < NSHAPES; ++hi) for (int rep = 0; rep < REPS; ++rep) for (int ds = 0; ds < 4; ++ds) {
+        if (ds > 0 && ok && !OP::free_shapes) continue;
         int w = SHAPES[wi], h = SHAPES[hi];
-        std::string sh = shape_str(w, h);
-        Arena S = make_arena<I>(w, h, r), D = make_arena<J>(w, h, r), S2 = S, D2 = D;
+        int w2 = (ds & 1) ? SHAPES[(wi + 1 + rep) % NSHAPES] : w, h2 = (ds & 2) ? SHAPES[(hi + 2 + rep) % NSHAPES] : h;
+        std::string sh = ds ? vh::cat(w, "x", h, "->", w2, "x", h2) : shape_str(w, h);
+        const char* dk = ds ? ".shapes-differ" : "";
+        Arena S = make_arena<I>(w, h, r), D = make_arena<J>(w2, h2, r), S2 = S, D2 = D;
         typename ALT<I>::view_t cs = view_of<I>(S); typename ALT<J>::view_t cd = view_of<J>(D);
         AV vs(cs), vd(cd);
         ACV vcs((typename ALT<I>::cview_t(cs)));
+        OP::prepare(r);
+        long calls_a = 0, calls_c = 0;
         bool threw = false;
+        g_sink = &calls_a;
         try {
             call_form<OP>(std::integral_constant<int, FORM>(), vs, vd, cs, cd, vcs);
         } catch (std::bad_cast const&) { threw = true; }
-        ++g_evals;
+        ++g_evals; ++nd;
         if (ok) {
-            if (threw) vh::viol(vh::cat(cls, ".unexpected-bad_cast.", id), vh::cat("shape ", sh));
+            if (threw) vh::viol(vh::cat(cls, ".unexpected-bad_cast", dk, ".", id), vh::cat("shape ", sh));
+            g_sink = &calls_c;
             concrete<ok>::template call<OP>(view_of<I>(S2), view_of<J>(D2));
-            if (!(D == D2)) vh::viol(vh::cat(cls, ".result.", id), vh::cat("destination arena differs from the concrete call, shape ", sh));
+            if (!(D == D2)) vh::viol(vh::cat(cls, ".result", dk, ".", id), vh::cat("destination arena differs from the concrete call given the same arguments, shape ", sh));
+            if (calls_a != calls_c) vh::viol(vh::cat(cls, ".caller-object-calls", dk, ".", id), vh::cat("the caller's converter/sampler object was called ", calls_a, " times, in the concrete call ", calls_c, " times, shape ", sh));
         } else {
-            if (!threw) vh::viol(vh::cat(cls, ".no-bad_cast.", id), vh::cat("incompatible pair accepted, shape ", sh));
-            if (!(D == D2)) vh::viol(vh::cat(cls, ".dst-changed-on-bad_cast.", id), vh::cat("shape ", sh));
+            if (!threw) vh::viol(vh::cat(cls, ".no-bad_cast", dk, ".", id), vh::cat("incompatible pair accepted, shape ", sh));
+            if (!(D == D2)) vh::viol(vh::cat(cls, ".dst-changed-on-bad_cast", dk, ".", id), vh::cat("shape ", sh));
         }
-        if (!(S == S2)) vh::viol(vh::cat(cls, ".src-changed.", id), vh::cat("shape ", sh));
+        g_sink = nullptr;
+        if (!(S == S2)) vh::viol(vh::cat(cls, ".src-changed", dk, ".", id), vh::cat("shape ", sh));
+        if (ds) vh::obs(ok ? "binary.shapes-differ.ok" : "binary.shapes-differ.bad_cast");
     }
-    vh::evals(g_evals - e0); vh::distinct(NSHAPES * NSHAPES);
+    vh::evals(g_evals - e0); vh::distinct(nd / REPS);
     vh::obs(ok ? (compat ? "binary.compatible" : "binary.converted") : "binary.bad_cast");
 }
 template <class OP, int FORM> void binary_all() {
@@ -492,10 +547,16 @@ template <int EI, int EJ, int FORM> void equal_case() {
     vh::rng r = vh::case_rng();
     uint64_t e0 = g_evals;
     const bool compat = (int)ALT<I>::cls == (int)ALT<J>::cls;
-    for (int wi = 0; wi < NSHAPES; ++wi) for (int hi = 0; hi < NSHAPES; ++hi) for (int rep = 0; rep < REPS; ++rep) for (int same = 0; same < 2; ++same) {
+    // ds > 0: the second view has another width and/or height -- incompatible pairs only (they must throw whatever
+    // the shapes; for compatible pairs equal dimensions are the precondition)
+    uint64_t nd = 0;
+    for (int wi = 0; wi < NSHAPES; ++wi) for (int hi = 0; hi < NSHAPES; ++hi) for (int rep = 0; rep < REPS; ++rep) for (int same = 0; same < 2; ++same) for (int ds = 0; ds < 4; ++ds) {
+        if (ds > 0 && (compat || same)) continue;
         int w = SHAPES[wi], h = SHAPES[hi];
-        std::string sh = shape_str(w, h);
-        Arena S = make_arena<I>(w, h, r), D = make_arena<J>(w, h, r);
+        int w2 = (ds & 1) ? SHAPES[(wi + 1 + rep) % NSHAPES] : w, h2 = (ds & 2) ? SHAPES[(hi + 2 + rep) % NSHAPES] : h;
+        std::string sh = ds ? vh::cat(w, "x", h, " vs ", w2, "x", h2) : shape_str(w, h);
+        const char* dk = ds ? ".shapes-differ" : "";
+        Arena S = make_arena<I>(w, h, r), D = make_arena<J>(w2, h2, r);
         typename ALT<I>::view_t cs = view_of<I>(S); typename ALT<J>::view_t cd = view_of<J>(D);
         // same content (through the concrete copy) or random content
         if (same) concrete<compat>::copy(cs, cd);
@@ -505,16 +566,16 @@ template <int EI, int EJ, int FORM> void equal_case() {
         try {
             res = equal_form(std::integral_constant<int, FORM>(), vs, vd, cs, cd);
         } catch (std::bad_cast const&) { threw = true; }
-        ++g_evals;
+        ++g_evals; ++nd;
         if (compat) {
             if (threw) vh::viol(vh::cat(cls, ".unexpected-bad_cast.", id), vh::cat("shape ", sh));
             cres = concrete<compat>::equal(cs, cd);
             if (res != cres) vh::viol(vh::cat(cls, ".result.", id), vh::cat("variant says ", res, ", concrete says ", cres, ", shape ", sh, same ? " equal content" : " random content"));
-            if (same && w * h > 0 && !cres) { /* the concrete oracle itself is C04's business */ }
-        } else if (!threw) vh::viol(vh::cat(cls, ".no-bad_cast.", id), vh::cat("incompatible pair compared, result ", res, ", shape ", sh));
-        if (!(S == S2) || !(D == D2)) vh::viol(vh::cat(cls, ".arena-changed.", id), vh::cat("shape ", sh));
+        } else if (!threw) vh::viol(vh::cat(cls, ".no-bad_cast", dk, ".", id), vh::cat("incompatible pair compared, result ", res, ", shapes ", sh));
+        if (!(S == S2) || !(D == D2)) vh::viol(vh::cat(cls, ".arena-changed", dk, ".", id), vh::cat("shape ", sh));
+        if (ds) vh::obs("equal.shapes-differ.bad_cast");
     }
-    vh::evals(g_evals - e0); vh::distinct(NSHAPES * NSHAPES * 2);
+    vh::evals(g_evals - e0); vh::distinct(nd / REPS);
     vh::obs(compat ? "equal.compatible" : "equal.bad_cast");
 }
 template <int FORM> void equal_all() {
@@ -667,6 +728,8 @@ int main(int argc, char** argv) {
     binary_all<op_ccp, 0>(); binary_all<op_ccp, 1>();
 #elif C14_PART == 4
     binary_all<op_ccp, 2>(); binary_all<op_ccp_cc, 0>();
+#elif C14_PART == 10
+    binary_all<op_ccp_cc, 1>(); binary_all<op_ccp_cc, 2>();
 #elif C14_PART == 5
     equal_all<0>(); equal_all<1>(); equal_all<2>();
     { auto f = [&](auto ic) { image_equality_case<decltype(ic)::value>(); }; AltLoop<0, NEQ>::run(f); }
